@@ -44,7 +44,7 @@ import (
 
 type PktSpec struct{ ID, Size int }
 
-type InItem struct{ Kind, ID, Size int } // Kind 0 frame, 1 garbage (bad checksum), 2 EOF, 3 RST, 4 truncated frame then FIN, 5 header with an over-limit length, 7 a frame written (after idling 2/3 of the read time-out) in ONE write together with the first half of the next frame, 8 that next frame, whose second half follows after another 2/3 of the time-out, 6 a frame written in two halves with a pause longer than the read time-out in between (the second half begins with a complete, valid frame)
+type InItem struct{ Kind, ID, Size int } // Kind 0 frame, 1 garbage (bad checksum), 2 EOF, 3 RST, 4 truncated frame then FIN, 5 header with an over-limit length, 7 a frame written (after idling 2/3 of the read time-out) in ONE write together with the first half of the next frame, 9 the first half of a frame and then silence, 8 that next frame, whose second half follows after another 2/3 of the time-out, 6 a frame written in two halves with a pause longer than the read time-out in between (the second half begins with a complete, valid frame)
 
 type Dir struct{ Op, A, B int }
 
@@ -357,9 +357,10 @@ type Sim struct {
 	peerDone  chan struct{}
 	peerStart chan struct{} // closed when the peer may start reading (late mode)
 
-	inputWritten  int32 // items written to the socket by the peer side
-	inputConsumed int32 // reader.frame / reader.err events
-	rdClosed      atomic.Bool
+	inputWritten   int32 // items written to the socket by the peer side
+	partialWritten int32 // of which: incomplete frames (the reader keeps waiting for their rest)
+	inputConsumed  int32 // reader.frame / reader.err events
+	rdClosed       atomic.Bool
 
 	results       [][][2]int // per sender: (id, code)
 	closeRes      []int      // per closer: 0 not returned, 1 returned, 3 panicked
@@ -637,7 +638,7 @@ func (sim *Sim) quiet() (bool, string) {
 		}
 		if g.status == "IO wait" {
 			if strings.Contains(g.text, "(*TcpConn).readPump") {
-				if atomic.LoadInt32(&sim.inputWritten) > atomic.LoadInt32(&sim.inputConsumed) || sim.rdClosed.Load() {
+				if atomic.LoadInt32(&sim.inputWritten)-atomic.LoadInt32(&sim.partialWritten) > atomic.LoadInt32(&sim.inputConsumed) || sim.rdClosed.Load() {
 					// the kernel will wake it (data / EOF pending): wait for that, but not for ever — after
 					// 2 s in the network wait it counts as parked (its step stays enabled in the model, so
 					// the replay is unaffected; a Close waiting for it is then reported as stuck)
@@ -854,6 +855,15 @@ func (sim *Sim) peerWriteItem(idx int, enc codec.Encoder) bool {
 		f := encodeFrame(enc, false, PktSpec{it.ID, it.Size + 8})
 		sim.peer.Write(f[:len(f)-3])
 		sim.peer.CloseWrite()
+	case 9:
+		// the first part of a frame (header incomplete, or header + part of the body), then silence
+		f := encodeFrame(enc, sim.cfg.Cipher, PktSpec{it.ID, it.Size})
+		n := len(f) / 2
+		if it.Size == 0 || n < 1 {
+			n = 5
+		}
+		sim.peer.Write(f[:n])
+		atomic.AddInt32(&sim.partialWritten, 1)
 	case 7, 8:
 		to := sim.cfg.ReadTimeout
 		if to <= 0 {
